@@ -544,7 +544,8 @@ def rungekutta4(m: Model, d: Data):
   for i in range(3):
     a, b = float(A[i]), B[i + 1]
     _rk_perturb_state(m, d, a, qpos_t0, qvel_t0, act_t0)
-    forward(m, d)
+    # sensors (and their history buffers) belong to the state at the start of the step, as in mj_RungeKutta
+    _forward(m, d, skipsensor=True)
     _rk_accumulate(m, d, b, qvel_rk, qacc_rk, act_dot_rk)
 
   wp.copy(d.qpos, qpos_t0)
@@ -1347,18 +1348,25 @@ def _energy_vel(m: Model, d: Data):
 @event_scope
 def forward(m: Model, d: Data):
   """Forward dynamics."""
+  _forward(m, d, skipsensor=False)
+
+
+def _forward(m: Model, d: Data, skipsensor: bool):
+  """Forward dynamics, optionally without the sensor computations (intermediate Runge-Kutta stages)."""
   sleep_enabled = bool(m.opt.enableflags & EnableBit.SLEEP) and not bool(m.opt.disableflags & DisableBit.ISLAND)
   if sleep_enabled:
     sleep.wake(m, d)
     sleep.update_sleep(m, d)
 
   fwd_position(m, d, factorize=False)
-  d.sensordata.zero_()
-  sensor.sensor_pos(m, d)
+  if not skipsensor:
+    d.sensordata.zero_()
+    sensor.sensor_pos(m, d)
   _energy_pos(m, d)
 
   fwd_velocity(m, d)
-  sensor.sensor_vel(m, d)
+  if not skipsensor:
+    sensor.sensor_vel(m, d)
   _energy_vel(m, d)
 
   if not (m.opt.disableflags & DisableBit.ACTUATION):
@@ -1368,7 +1376,8 @@ def forward(m: Model, d: Data):
   fwd_acceleration(m, d, factorize=True)
 
   solver.solve(m, d)
-  sensor.sensor_acc(m, d)
+  if not skipsensor:
+    sensor.sensor_acc(m, d)
 
 
 @event_scope
